@@ -92,6 +92,20 @@ def check(pid, tier, seed, replay=None):
                 s3 = tlc(mdir, "CborGen", "CONSTANTS MaxHeads = 4\nSPECIFICATION Spec\nCHECK_DEADLOCK FALSE\nINVARIANT Emit\n", workers=1, simulate=60000, depth=6, seed=seed, timeout=900)
                 seqs += [json.loads(parse_tla_tuple("<<" + ln + ">>")[0].split("|", 1)[1]) for ln in s3.out.splitlines() if ln.startswith('"@@GEN|')]
             stats = {"distinct": r.distinct, "generated": r.generated}
+            # TLC's workers print in no particular order: sort, so that the random choices below meet the same sequence in every run
+            seqs.sort(key=lambda s: json.dumps(s))
+            # a directed family without any random choice: every handled tag (and none, and an unhandled one) in front of every
+            # string / array / map head whose announced length is beyond what follows, in every width - bare and as a map value
+            k = 0
+            for tag in (None, 1, 63, 260, 261, 262, 263, 264):
+                for m in (2, 3, 4, 5):
+                    for ai, w, val in ((24, 1, 100), (24, 1, 255), (25, 2, 40000), (25, 2, 65535), (26, 4, 70000), (26, 4, 1 << 24), (26, 4, 1 << 26),
+                                       (27, 8, 1 << 24), (27, 8, 1 << 63), (27, 8, (1 << 64) - 1)):
+                        item = (b"" if tag is None else bytes([0xd9]) + tag.to_bytes(2, "big")) + bytes([(m << 5) | ai]) + val.to_bytes(w, "big")
+                        for tail in (b"", b"abc"):
+                            for form in (item + tail, b"\xbf\x61k" + item + tail + b"\xff"):
+                                ops.append({"a": "Input", "id": "beyond%d" % k, "hex": form.hex(), "abs": []})
+                                k += 1
             for i, s in enumerate(seqs):
                 for rep in range(2 if thorough else 1):
                     ops.append({"a": "Input", "id": "gen%d_%d" % (i, rep), "hex": concretise(rng, s).hex(), "abs": s})
